@@ -90,8 +90,20 @@ func VerifC04Closure() {
 	if vrt.Bool("call-before-update") {
 		body = append(body, asg("k", call("g", lit())))
 	}
+	tag := ""
+	deep := vrt.Bool("deep-call-between")
+	if deep {
+		// a deep recursion between the definition of the closure and the update of the captured
+		// variable: the operand stack grows (and is reallocated) while the closure exists
+		p.steps("define", false, asg("dive", fn(node.IfElse{Condition: bin(">", nm("d"), ilit(0)), TrueCase: bin("+", call("dive", bin("-", nm("d"), ilit(1))), ilit(1)), FalseCase: ilit(0)}, "d")))
+		body = append(body, asg("dd", call("dive", ilit(vrt.Param("dive", 140)))))
+	}
 	if vrt.Bool("update-after-definition") {
 		body = append(body, asg(pick("local2"), bin("+", nm(par), lit())))
+		if deep {
+			// own labels: a captured variable updated after the operand stack was reallocated
+			tag = "updated-after-stack-growth/"
+		}
 	}
 	how := vrt.Choice("leaves-as", 4)
 	switch how {
@@ -107,20 +119,20 @@ func VerifC04Closure() {
 	f := asg("f", fn(blk(body...), par))
 	vrt.Note("function", Src(f))
 	p.steps("define", false, f)
-	p.Step(asg("h", call("f", lit())), true, "call")
+	p.Step(asg("h", call("f", lit())), true, tag+"call")
 	p.observe("after-call")
 	switch how {
 	case 0, 1:
 		// other calls happen in between (they reuse the stack region of f's frame)
 		p.steps("between", false, asg("pad", fn(blk(asg("a", lit()), asg("b", lit()), asg("c", lit()), bin("+", nm("a"), nm("b"))))), call("pad"))
-		p.Step(call("h", lit()), true, "closure-call")
-		p.Step(call("h", lit()), true, "closure-call-again")
+		p.Step(call("h", lit()), true, tag+"closure-call")
+		p.Step(call("h", lit()), true, tag+"closure-call-again")
 	case 2:
 		p.steps("between", false, asg("pad", fn(blk(asg("a", lit()), asg("b", lit()), asg("c", lit()), bin("+", nm("a"), nm("b"))))), call("pad"))
-		p.Step(asg("t", node.IndexAt{Ary: nm("h"), At: node.Int(0)}), true, "take-from-array")
-		p.Step(call("t", lit()), true, "closure-from-array-call")
+		p.Step(asg("t", node.IndexAt{Ary: nm("h"), At: node.Int(0)}), true, tag+"take-from-array")
+		p.Step(call("t", lit()), true, tag+"closure-from-array-call")
 	default:
-		p.Step(nm("h"), true, "result")
+		p.Step(nm("h"), true, tag+"result")
 	}
 	p.observe("end")
 	vrt.Cover("done")
